@@ -226,15 +226,21 @@ def run(tier, seed, replay):
         d = common.make_crate(CRATE + ("_ctl" if control else ""), main, extra_files=files)
         return common.cargo(d, ["build", "--message-format=json", "--quiet"])
 
+    generator_rejects = {}
     live_units, failed = G12.build_dropping(chk, units, unit_id, build, what="C13 crate")
     if failed:
         # control: the same types without the derive must compile, otherwise the generator is at fault
         ctl = [u for u in units if unit_id(u) in failed]
-        rc, out = build(ctl, control=True)
+        _, ctl_failed = G12.build_dropping(chk, ctl, unit_id, lambda sub: build(sub, control=True), what="C13 control crate")
         common.cleanup_scratch(CRATE + "_ctl")
-        if rc != 0:
-            raise common.BuildError("generated C13 type(s) %s are rejected by rustc even without the derive:\n%s" %
-                                    (sorted(failed)[:5], str(G12.parse_diags(out, None))[:1500]))
+        for cid, diags in ctl_failed.items():
+            # a generator artefact says nothing about derive_more: dropped from the run and counted, never reported
+            generator_rejects[cid] = sorted(set(str(code) for code, _, _ in diags))
+            failed.pop(cid, None)
+        if generator_rejects:
+            chk.bump("generator_rejects", len(generator_rejects))
+            chk.notes.append("generator artefacts dropped (rustc rejects the type even without the derive): %s" % sorted(generator_rejects.items()))
+        ctl = [u for u in ctl if unit_id(u) not in generator_rejects]
         for u in ctl:
             src = G.enum_item(u[1]) if u[0] == "enum" else "#[derive(FromStr)] " + u[1][1]
             diags = failed[unit_id(u)]
@@ -463,7 +469,7 @@ def run(tier, seed, replay):
              "hand-picked boundary strings + random numeric-looking strings, each compared with the field type's own parse in the same "
              "program. evaluations = (type, input) pairs; non-trivial = enum with >= 2 variants or a raw variant, every newtype; distinct by declaration",
         trusted=TRUSTED,
-        extra={"switches": flags, "exhaustive": True})
+        extra={"switches": flags, "exhaustive": True, "generator_rejects": generator_rejects})
 
 
 META = {
